@@ -421,6 +421,9 @@ THEOREMS = [
     'C19.read_append', 'C19.read_reset', 'C19.append_concat',
     # the log handed over as an open stream (an object that outlives the call, with a position)
     'C19.seeks_sound', 'C19.read_stream', 'C19.read_stream_again',
+    # from the text to its lines: a line ends at \n and nowhere else (not at \x0b \x0c \x1c-\x1e U+0085 U+2028 U+2029, the
+    # boundaries of str.splitlines(), nor at a lone \r); the \r of \r\n stays on the line
+    'C19.splitLines_length', 'C19.splitLines_one_line', 'C19.splitLines_joinLines', 'C19.readText_joinLines',
     # version string and date
     'C19.read_version_kept', 'C19.read_version_new', 'C19.version_date', 'C19.month_table_calendar',
     # printed cells are read back token by token
@@ -463,7 +466,10 @@ RULE = ('logs synthesised from the documented layout: optional LAMMPS (<d> <Mon>
         'runs with either memory-usage banner, 1-9 thermo keywords (Step first, elsewhere or absent), int and float '
         'columns with 12 float token shapes (incl. nan/inf/1e-300/17 digits), five padding styles, blank lines in and '
         'around blocks, optional WARNING lines inside blocks (correspondence only), new/old/no timing breakdown, '
-        'minimize statistics, histograms, truncated last run, \\n or \\r\\n, with/without final newline; step ranges '
+        'minimize statistics, histograms, truncated last run, \\n or \\r\\n, with/without final newline; 15 % of the noise '
+        'lines are echoed comment / print / variable lines holding \\x0b \\x0c \\x1c-\\x1f U+0085 U+2028 U+2029 U+00A0 U+3000 '
+        'U+FEFF DEL or 2-/3-/4-byte UTF-8 text next to ordinary text, 6 % of the logs start with a byte-order mark in front '
+        'of a comment line; step ranges '
         'continuing, restarting on the grid, with gaps, shifted grids, backwards; histories of 1-4 logs read as text/bytes/'
         'path/pathlib.Path/BytesIO/open binary file through Log(..) (also a second Log object mid-history) or read(.., '
         'append=None/True/False) interleaved with flatten(first/last/all/bogus, firstindex, lastindex); the input OBJECT '
@@ -489,8 +495,9 @@ ASSUMPTIONS = [
     'pandas quirks kept out of the generated logs (LAMMPS prints neither): the token -9223372036854775808 in an otherwise '
     'integer column that also holds a nan token is read as NaN (int64 NA sentinel); an integer token >= 2^63 next to a '
     'float token makes pandas keep the whole column as text',
-    'str.split()/strip() whitespace on the log lines is ASCII whitespace (the synthesised logs contain no other Unicode '
-    'whitespace)',
+    'str.split()/strip() whitespace on the log lines is ASCII whitespace (the synthesised logs contain other Unicode '
+    'whitespace - U+0085, U+00A0, U+2003, U+2028, U+2029, U+3000, \\x1c-\\x1f - only inside noise lines that also hold ordinary text, '
+    'where neither blankness nor a token of a table depends on it)',
     'uber_open_rmode (potentials package) presents text, bytes and path input as a fresh binary stream at position 0, '
     'passes an open binary stream through as it stands (position kept, not closed) and refuses a stream opened in text '
     'mode with ValueError',
@@ -563,6 +570,7 @@ PREAMBLE += NEAR[:6]
 SETUP += NEAR[6:] + NEAR[:2]
 POST_END += NEAR
 BLANKS = ['', '', '', ' ', '   ', '\t', ' \t ']
+EXOTIC_P = 0.15             # share of the noise lines that carry characters beyond printable ASCII
 INSIDE_WARN = ['WARNING: foo', 'WARNING:', 'ERROR on proc 0:', 'WARNING: Bond/angle/dihedral extent > half of periodic box length (src/domain.cpp:936)',
                'WARNING: Too many warnings: 101 vs 100. All future warnings will be suppressed (src/thermo.cpp:460)']
 
@@ -762,9 +770,30 @@ def breakdown_lines(rng, kind, spec=None):
     return []
 
 
-def _noise(rng, pool, lo, hi):
+# characters that are NOT line ends for LAMMPS, for a byte stream read line by line, or for pandas, but are line
+# boundaries for str.splitlines() (\x0b \x0c \x1c \x1d \x1e U+0085 U+2028 U+2029) and / or white space for str.split()
+# (those, \x1f, U+00A0, U+2003, U+3000), and other text beyond ASCII (two-, three-, four-byte UTF-8, a BOM in mid-file,
+# DEL): they occur INSIDE echoed comment / print / variable lines that also hold ordinary text (a page break or a
+# pasted paragraph separator in the input script).  Kept out (not in the documented layout, and the unchanged code
+# mis-counts them, see docs/C19.md candidates): a lone \r inside a line, a line made only of such white space.
+EXOTIC_CHARS = ['\x0b', '\x0c', '\x0c', '\x1c', '\x1d', '\x1e', '\x1f', '\x85', '\u2028', '\u2028', '\u2029', '\xa0',
+                '\u2003', '\u3000', '\ufeff', '\x7f', 'é', 'Ω', '→', '温', '\U0001F600']
+EXOTIC_LINES = ['# melt{} part 1', 'print "page{}break"', '# {}{} section 2', 'variable note string "a{}b"',
+                '# résumé → naïve {} Ωμέγα', 'print "温度{}300 K"', '#{}', '{}# leading', '# trailing{}', 'print "{}"',
+                '  # indented{}note {}', 'shell echo step{}done']
+
+
+def _exotic_line(rng):
+    t = rng.choice(EXOTIC_LINES)
+    return t.format(*[rng.choice(EXOTIC_CHARS) for _ in range(t.count('{}'))])
+
+
+def _noise(rng, pool, lo, hi, exotic=0.0):
     out = []
     for _ in range(rng.randint(lo, hi)):
+        if exotic and rng.random() < exotic:
+            out.append(_exotic_line(rng))
+            continue
         out.append(rng.choice(pool) if rng.random() < 0.75 else rng.choice(BLANKS))
     return out
 
@@ -779,6 +808,7 @@ class LogSpec:
         self.eol = '\n'
         self.final_eol = True
         self.dirty = False       # WARNING/ERROR lines inside a thermo block
+        self.bom = False         # the text starts with U+FEFF
 
     @property
     def version_string(self):
@@ -829,7 +859,7 @@ def render_run(rng, r: RunSpec):
         if r.breakdown != 'none-nohist':
             L.append('Nlocal:    4 ave 4 max 4 min')
             L += POST_HIST[:rng.choice([1, 3, 6])]
-        L += _noise(rng, POST_END + BLANKS, 0, 5)
+        L += _noise(rng, POST_END + BLANKS, 0, 5, EXOTIC_P)
     return L
 
 
@@ -848,7 +878,7 @@ def gen_log(rng, nruns=None, size='small', allow_dirty=False, allow_backward=Tru
     L += _noise(rng, BLANKS, 0, 1)
     if S.version is not None:
         L.append(f'LAMMPS ({S.version_string})' + rng.choice(['', '', ' ']))
-    L += _noise(rng, PREAMBLE + BLANKS, 0, 8)
+    L += _noise(rng, PREAMBLE + BLANKS, 0, 8, EXOTIC_P)
     if rng.random() < 0.03:
         # an extremely long line (a long echoed variable / a `print` of a whole table)
         L.insert(rng.randint(0, len(L)), rng.choice([
@@ -898,10 +928,16 @@ def gen_log(rng, nruns=None, size='small', allow_dirty=False, allow_backward=Tru
         if r.rows and lo < len(r.cols) and rng.random() < 0.4:
             r.rows[-1] = r.rows[-1][:rng.randint(lo, len(r.cols) - 1)]
     for r in S.runs:
-        L += _noise(rng, SETUP + BLANKS, 0, 4)
+        L += _noise(rng, SETUP + BLANKS, 0, 4, EXOTIC_P)
         L += render_run(rng, r)
     if not S.runs or S.runs[-1].complete:
         L += _noise(rng, ['Total wall time: 0:00:01'] + (['LAMMPS (1 Jan 1999)'] if S.version else []) + BLANKS, 0, 2)
+    # a byte-order mark at the start of the file (a log saved by an editor): in front of an echoed comment line (in
+    # front of the version banner it hides the banner from the unchanged code, in front of a blank line pandas and the
+    # line counter disagree: both outside the documented layout, see docs/C19.md candidates)
+    if rng.random() < 0.06:
+        L.insert(0, '\ufeff' + rng.choice(['# log of job 1234', 'echo both', _exotic_line(rng).lstrip() + ' #']))
+        S.bom = True
     S.lines = L
     S.eol = '\r\n' if rng.random() < 0.08 else '\n'
     S.final_eol = rng.random() < 0.9
@@ -1635,6 +1671,10 @@ def model_requests(logs, ops):
                     lk, lc = _line_pos(text, pre)
                     req.append(f'sseek {sid} {lk} {lc}')
                 req.append(f'sread {sid} {a}')
+                where.append(len(req) - 1)
+            elif mode in ('text', 'bytes'):
+                # the whole text as one token: the model splits it into lines itself (splitLines: at \n only)
+                req.append(f'readt {a} ' + enc(text))
                 where.append(len(req) - 1)
             else:
                 req.append(f'read {a} ' + ' '.join(enc(l) for l in text.split('\n')))
